@@ -61,7 +61,7 @@ typedef struct trial {
 	int retarget;                /* retarget mode: queues [ntargets, nq) are leaves whose target changes while they are in use */
 	int ntargets;
 	_Atomic int rt_stop;
-	_Atomic uint64_t retargets;
+	_Atomic uint64_t retargets, ephemeral;
 	uint64_t salt;
 	vf_profile_t prof;
 	_Atomic int tids[64];
@@ -350,11 +350,20 @@ static void *retargeter_main(void *arg)
 	vf_rng_seed(&r, t->salt, 0x7e7a);
 	while (!atomic_load(&t->rt_stop)) {
 		hq_queue_t *leaf = &t->qs[t->ntargets + (int)vf_rnd_n(&r, (uint32_t)(t->nq - t->ntargets))];
-		uint32_t c = vf_rnd_n(&r, 10);
+		uint32_t c = vf_rnd_n(&r, 13);
 		dispatch_queue_t tq = c < 7 ? t->qs[vf_rnd_n(&r, (uint32_t)t->ntargets)].q :
 				c < 9 ? dispatch_get_global_queue(c == 7 ? DISPATCH_QUEUE_PRIORITY_DEFAULT : DISPATCH_QUEUE_PRIORITY_LOW, 0) :
-				DISPATCH_TARGET_QUEUE_DEFAULT;
-		dispatch_set_target_queue(leaf->q, tq);
+				c < 10 ? DISPATCH_TARGET_QUEUE_DEFAULT : NULL;
+		if (c >= 10) {
+			/* an ephemeral target: the leaf holds the only reference ("the queue is retained, and the previous
+			 * target queue, if any, is released"), so the next retarget of this leaf disposes of it (C17) */
+			tq = dispatch_queue_create("vf.rt.ephemeral", c == 10 ? DISPATCH_QUEUE_CONCURRENT : DISPATCH_QUEUE_SERIAL);
+			dispatch_set_target_queue(leaf->q, tq);
+			dispatch_release(tq);
+			atomic_fetch_add(&t->ephemeral, 1);
+		} else {
+			dispatch_set_target_queue(leaf->q, tq);
+		}
 		/* (not logical progress for the watchdog: clients stuck behind a retarget must yield a stuck witness) */
 		if (atomic_fetch_add(&t->retargets, 1) >= 20000) { struct timespec ts = { 0, 2000000 }; nanosleep(&ts, NULL); continue; }
 		uint32_t w = vf_rnd_n(&r, 4);
@@ -581,6 +590,7 @@ static void run_std_trial(int idx)
 		for (int i = 0; i < nrt; i++) pthread_join(rth[i], NULL);
 		vf_count("retargets_while_in_use", atomic_load(&t->retargets));
 		vf_count("retarget_trials", 1);
+		vf_count("retargets_to_ephemeral_queue", atomic_load(&t->ephemeral));
 	}
 	vf_watch_end();
 	/* all submissions returned: now every accepted item must run */
